@@ -477,3 +477,10 @@ mod tests {
     // TODO: Test allocation size tracking
 }
 
+
+#[cfg(uflow_verif)]
+impl PacketSender {
+    pub fn verif_window_size(&self) -> u32 { self.window_size }
+    pub fn verif_alloc(&self) -> usize { self.alloc }
+    pub fn verif_max_alloc(&self) -> usize { self.max_alloc }
+}
